@@ -51,6 +51,9 @@ def check(run: Run) -> None:
     vn = cls.methods.get("visit_Name")
     if vn is None:
         raise AnalysisError("anchor vanished: _rewrite_captured_vars.visit_Name")
+    from ..normalise import unrolled
+
+    vn = unrolled(m, vn)  # the by-kind rendering of the value may sit in a private helper visit_Name returns through
     fa = ctx.analysis(vn)
     nodep = ("param", vn.pos_params[1])
     selfp = ("param", vn.pos_params[0])
@@ -77,6 +80,8 @@ def check(run: Run) -> None:
                 ok = True  # freshly parsed helper lambda (C05)
             elif a == ("const", None) and len(unphi_terms(t)) > 1:
                 ok = True  # the walrus alternative that is excluded by `is not None`
+            elif a == nodep:
+                ok = True  # the name is left as it is (e.g. `helper if helper is not None else node`)
             run.check(ok, "C04.R3", vn, s, "captured value enters the AST as Constant / as_literal / freshly parsed lambda", f"visit_Name puts {show(a)[:120]} into the query: not a by-value constant of the snapshot (nor a fresh parse of a captured helper)", "ast.Constant(value=v) / as_literal(v)", show(a))
     run.floor("C04.R1", n_subst, 3, "substituting returns of visit_Name")
 
